@@ -22,14 +22,16 @@ func Elapsed(style TimeStyle, wcc ...WC) Decorator {
 //	`wcc` optional WC config
 func NewElapsed(style TimeStyle, start time.Time, wcc ...WC) Decorator {
 	var msg string
+	var frozen bool
 	producer := chooseTimeProducer(style)
 	fn := func(s Statistics) string {
 		if !s.Completed && !s.Aborted {
 			msg = producer(time.Since(start))
 		}
-		if msg == "" {
-			// first frame of a bar which has finished already
+		if (s.Completed || s.Aborted) && !frozen {
+			// first frame of a bar which has finished: the time it took
 			msg = producer(time.Since(start))
+			frozen = true
 		}
 		return msg
 	}
